@@ -187,6 +187,10 @@ pub fn run_c09(ctx: &mut Ctx) {
                 0..=5 => {
                     let n = match rng.below(5) { 0 => 0, 1 => 1, _ => rng.usize_below(70) };
                     let o = ex(&mut log, &mut im, &format!("a.read {n}"));
+                    // beyond the last stream (or for a role without input streams) the end-of-file is immediate and permanent
+                    // (a poll may still be Pending while replies owed for buffered look-ahead are flushed; it never reads the transport)
+                    let read_tr = field(&o, "ev").map_or(false, |ev| ev.split(|c| c == ',' || c == ';').any(|t| t.starts_with('R')));
+                    if active.is_none() && buffered.is_empty() && !o.starts_with("ready 0") && (o.starts_with("err") || o.starts_with("ready") || read_tr) { or.fail(format!("poll_read({n}) with no active stream returned `{}` instead of an immediate end-of-file", &o[..o.len().min(40)]), log.replay_block(), "C09:none-not-eof".into()); }
                     if o.starts_with("ready") {
                         let k: usize = o.split(' ').nth(1).unwrap().parse().unwrap();
                         let data = unhex(o.split(' ').nth(2).unwrap());
